@@ -15,6 +15,12 @@ R3 wrappers installed by instrument() delegate unchanged: the saved original
    parameters and its result is what the wrapper returns.
 R4 the instrumentation emits only on the admin namespace (admin_emit
    excepted, which is R2-gated).
+R5 the instrumentation's own tables cannot make a wrapper fail in front of
+   the application: a table the instrumentation hangs on the server (derived
+   from instrument()) and deletes from unconditionally in one wrapper arm is
+   filled, in the arm that fills it, BEFORE the original is called - the
+   application code running inside the original may already end the client,
+   which enters the deleting arm.
 """
 import ast
 
@@ -373,6 +379,89 @@ def r4_admin_only(ctx, fam):
         raise AnalysisError('%s: only %d emit sites found' % (A, n))
 
 
+def _tolerated(fnode, node):
+    """is `node` inside a try body whose handlers catch KeyError?"""
+    for t in ast.walk(fnode):
+        if isinstance(t, ast.Try) and any(
+                node is x for b in t.body for x in ast.walk(b)):
+            for h in t.handlers:
+                names = [U(h.type)] if h.type is not None and not \
+                    isinstance(h.type, ast.Tuple) else \
+                    [U(x) for x in h.type.elts] if h.type is not None else \
+                    ['BaseException']
+                if set(names) & {'KeyError', 'LookupError', 'Exception',
+                                 'BaseException'}:
+                    return True
+    return False
+
+
+def r5_own_tables(ctx, fam):
+    m = ctx.model
+    A = ADMIN[fam]
+    f = m.method(A, 'instrument')
+    tables = []
+    for n in walk_own(f.node):
+        if isinstance(n, ast.Assign) and isinstance(n.value, ast.Dict) and \
+                not n.value.keys:
+            for t in n.targets:
+                if isinstance(t, ast.Attribute) and \
+                        U(t).startswith('self.sio.'):
+                    tables.append(U(t))
+    if not tables:
+        raise AnalysisError('%s.instrument: no instrumentation table found '
+                            '(_timestamps confirmed by hand)' % A)
+    pairs = wrapper_pairs(m, fam)
+    runs = [(w, saved, run_function(w, m, max_iter=1)) for w, saved in pairs]
+    for T in tables:
+        hard = []
+        for w, saved, run in runs:
+            for p in run.paths:
+                for e in p.events:
+                    if e.kind == 'del' and \
+                            U(run.expand(e.expr)).startswith(T + '['):
+                        if not _tolerated(w.node, e.node):
+                            hard.append((w, e))
+        seen = {id(e.node): (w, e) for w, e in hard}
+        ctx.info('%s: table %s, %d unconditional deletion site(s)'
+                 % (A, T, len(seen)))
+        ctx.check(True, '%s.instrument' % A, 'instrumentation table %s '
+                  'derived; %d unconditional deletion site(s) in the '
+                  'wrappers' % (T, len(seen)), key='table ' + T,
+                  where=where(f))
+        if not seen:
+            continue
+        n = 0
+        for w, saved, run in runs:
+            construct = '%s.%s' % (A, w.name)
+            for p in run.paths:
+                if not p.normal:
+                    continue
+                st = [e for e in p.events if e.kind == 'store' and
+                      U(run.expand(e.expr)).startswith(T + '[')]
+                orig = [e for e in p.events if e.kind == 'call' and
+                        isinstance(e.expr.func, ast.Attribute) and
+                        e.expr.func.attr == saved]
+                if not st or not orig:
+                    continue
+                n += 1
+                ctx.check(st[0].idx < orig[0].idx, construct, '%s is filled '
+                          'before the original %s runs' % (T, saved),
+                          key='fill-before-original ' + T,
+                          reason='%s[...] is filled (line %d) only after the '
+                          'original %s has run (line %d); application code '
+                          'inside it that ends the client enters the arm '
+                          'that deletes the entry unconditionally (line %d) '
+                          'and the wrapper raises KeyError instead of '
+                          'running the application\'s handler'
+                          % (T, st[0].lineno, saved, orig[0].lineno,
+                             list(seen.values())[0][1].lineno),
+                          where=where(w, st[0].node))
+        if not n:
+            ctx.bad('%s.instrument' % A, 'table-never-filled ' + T,
+                    '%s is deleted from but no wrapper path fills it' % T,
+                    where(f))
+
+
 def run(ctx):
     ctx.rule('C18.R1', 'credential decision table: auth kind x match',
              floor=16)
@@ -390,6 +479,11 @@ def run(ctx):
              floor=16)
     for fam in SA:
         r4_admin_only(ctx, fam)
+    ctx.rule('C18.R5', 'instrumentation tables are filled before the '
+             'original runs (the deleting arm cannot fail in front of the '
+             'application)', floor=2)
+    for fam in SA:
+        r5_own_tables(ctx, fam)
     ctx.assume('dict/list equality of Python decides "equals the configured '
                'credentials" (type-confused payloads compare unequal)')
     ctx.assume('timing and failures inside the instrumentation are NOT '
